@@ -25,6 +25,8 @@ type queueCfg struct {
 	Horizon     int      `json:"horizon"`
 	Deadline    int      `json:"deadline"`
 	Expect      string   `json:"expect"`
+	Blackbox    bool     `json:"blackbox"`
+	AllServed   bool     `json:"allserved"`
 	Ctor        string   `json:"ctor,omitempty"`
 }
 
